@@ -13,6 +13,7 @@ func init() {
 	verifRegister("VerifC03_KSource", VerifC03_KSource)
 	verifRegister("VerifC03_KCycle", VerifC03_KCycle)
 	verifRegister("VerifC03_KLimits", VerifC03_KLimits)
+	verifRegister("VerifC03_KIndexed", VerifC03_KIndexed)
 }
 
 var c03Env *lisp.LEnv
@@ -244,5 +245,85 @@ func VerifC03_KLimits() {
 	cleanRuntime(env, "user")
 	r2 := env.LoadString("p2", "(+ 1 2)")
 	vAssert(r2.Type == lisp.LInt && r2.Int == 3, "the runtime is still usable afterwards")
+	vCover("end")
+}
+
+// index-, size- and count-taking builtins called with otherwise WELL-TYPED arguments and ARBITRARY
+// 64-bit integers i, j in the numeric positions (the all-types sweep above can only reach these
+// with a valid type specifier / sequence by luck): never internal-panic, and a returned list,
+// vector, string or bytes value prints without panicking the host.
+var c03Indexed = []string{
+	"(slice 'list '(1 2 3) i j)",
+	"(slice 'vector (vector 1 2 3) i j)",
+	"(slice 'string \"abc\" i j)",
+	"(slice 'bytes (to-bytes \"abc\") i j)",
+	"(slice 'list (vector 1 2 3) i j)",
+	"(slice 'vector '(1 2 3) i j)",
+	"(slice 'list (slice 'list (vector 1 2 3 4) 1 3) i j)",
+	"(nth '(1 2 3) i)",
+	"(nth (vector 1 2 3) i)",
+	"(nth (slice 'list (vector 1 2 3 4) 1 3) i)",
+	"(insert-index 'list '(1 2 3) i 'x)",
+	"(insert-index 'vector (vector 1 2) i 'x)",
+	"(aref (vector 1 2 3) i)",
+	"(aref (make-array 2 2) i j)",
+	"(make-sequence i j)",
+	"(make-sequence 0 i j)",
+	"(make-sequence i 10 j)",
+	"(string:repeat \"ab\" i)",
+	"(search-sorted i (lambda (k) (> k j)))",
+	"(dotimes (x i) x)",
+	"(make-array i j)",
+	"(nth (make-sequence 0 5) i)",
+	"(slice 'list (make-sequence 0 5) i j)",
+	"(append! (slice 'vector (vector 1 2 3) i j) 9)",
+	"(stable-sort < (slice 'list (vector 3 2 1) i j))",
+	"(math:pow i j)",
+	"(mod i j)",
+	"(/ i j)",
+	"(- i j)",
+	"(* i j)",
+	"(format-string \"{} {}\" i j)",
+	"(to-string i)",
+	"(to-int (to-string i))",
+	"(to-float i)",
+	"(s:validate (s:len i) \"abc\")",
+	"(s:validate (s:gt i) j)",
+	"(time:time-add (time:parse-rfc3339 \"2024-01-01T00:00:00Z\") (time:duration-ns i))",
+}
+
+func VerifC03_KIndexed_Setup() { VerifC03_KBuiltins_Setup() }
+
+func VerifC03_KIndexed() {
+	env := c03Env
+	if env == nil {
+		VerifC03_KBuiltins_Setup()
+		env = c03Env
+	}
+	ti := vParam("only", -1)
+	if ti < 0 {
+		ti = vConcInt(vndChoice("tmpl", len(c03Indexed)))
+	}
+	tmpl := c03Indexed[ti]
+	loopy := strings.HasPrefix(tmpl, "(make-sequence") || strings.HasPrefix(tmpl, "(dotimes") || strings.HasPrefix(tmpl, "(string:repeat") || strings.HasPrefix(tmpl, "(search-sorted")
+	if loopy {
+		// a loop whose trip count is the integer itself: boundary values instead of a free word
+		bs := []int{0, 1, -1, 2, 3, 5, 1 << 31, 9223372036854775807, -9223372036854775808}
+		env.PutGlobal(lisp.Symbol("i"), lisp.Int(bs[vConcInt(vndChoice("bi", len(bs)))]))
+		env.PutGlobal(lisp.Symbol("j"), lisp.Int(bs[vConcInt(vndChoice("bj", len(bs)))]))
+	} else {
+		env.PutGlobal(lisp.Symbol("i"), lisp.Int(vndInt("i")))
+		env.PutGlobal(lisp.Symbol("j"), lisp.Int(vndInt("j")))
+	}
+	res := env.LoadString("idx", c03Indexed[ti])
+	vObserve("tmpl", c03Indexed[ti])
+	vAssert(res != nil, "a call returns a value")
+	vAssert(!lisp.IsInternalPanic(res), "no index or size panics the host: "+outcome(res))
+	if res.Type != lisp.LError {
+		for _, c := range res.Cells {
+			vAssert(c != nil, "a returned sequence holds values in every slot")
+		}
+	}
+	cleanRuntime(env, "user")
 	vCover("end")
 }
